@@ -4,7 +4,8 @@
    evaluator Model/CMakeLang.v: a change to the function body changes the term the theorem is
    about.  Partial: real CMake's evaluator is validated against (cmake -P), not verified. *)
 From Coq Require Import String List ZArith.
-From CMinx Require Import Base.Str Model.CMakeLang Gen.CMinxCMake Proofs.CMakeFacts.
+From CMinx Require Import Base.Str Model.Config Model.CMakeLang Gen.ConfigData Gen.CMinxCMake
+     Proofs.CMakeFacts Proofs.CliFacts.
 Import ListNotations.
 
 (* exactly one process: the executable, the input, -r iff the input is a directory, the extra
@@ -50,3 +51,19 @@ Theorem C19_list_flattening_refuted :
        <> [(expected_argv ex_isd (s"cminx") (s"/src") (s"/out") extra, true)].
 Proof. exact gen_rst_list_flattening_refuted. Qed.
 Print Assumptions C19_list_flattening_refuted.
+
+(* 'running the executable with that input, -o <output> and the extra arguments': for the argparse
+   table of the CURRENT main() (Gen/ConfigData.cli_table) the command line cminx_gen_rst builds and
+   the canonical order input -o output [-r] extra... yield the same settings source *)
+Theorem C19_cli_order_irrelevant :
+  forall dir r extra out,
+    r = [] \/ r = [s"-r"] -> startswith (s"-") dir = false -> startswith (s"-") out = false ->
+    flag_pairs_ok cli_table odest_cminx extra = true ->
+    exists A B, parse_args cli_table (dir :: r ++ extra ++ [s"-o"; out]) = Some A
+      /\ parse_args cli_table ([dir; s"-o"; out] ++ r ++ extra) = Some B
+      /\ p_positional A = [dir] /\ p_positional B = [dir]
+      /\ p_flags A = p_flags B /\ p_appended A = p_appended B
+      /\ (forall k, assoc k (src_vals (args_source cli_table A))
+                    = assoc k (src_vals (args_source cli_table B))).
+Proof. exact cli_order_irrelevant. Qed.
+Print Assumptions C19_cli_order_irrelevant.
